@@ -45,10 +45,11 @@ LayoutEvOK(e) ==
     /\ e.nreps = e.want /\ Len(e.reps) = e.want /\ e.want \in {2, 7}      \* the routine answered on every representation (7) / on the aliasing and the copied operand (2)
     /\ CASE e.kind = "exact"   -> SameExact(e)
          [] e.kind = "approx"  -> SameApprox(e)
-         [] e.kind = "argmin"  -> PlainArgOK(e, TRUE)
-         [] e.kind = "argmax"  -> PlainArgOK(e, FALSE)
-         [] e.kind = "sargmin" -> SkipArgsOK(e, TRUE)
-         [] e.kind = "sargmax" -> SkipArgsOK(e, FALSE)
+         \* an index result designates an extremum AND is the same index on every representation (among tied extrema too)
+         [] e.kind = "argmin"  -> PlainArgOK(e, TRUE) /\ SameExact(e)
+         [] e.kind = "argmax"  -> PlainArgOK(e, FALSE) /\ SameExact(e)
+         [] e.kind = "sargmin" -> SkipArgsOK(e, TRUE) /\ SameExact(e)
+         [] e.kind = "sargmax" -> SkipArgsOK(e, FALSE) /\ SameExact(e)
          [] OTHER -> FALSE
 
 EventOK(e) ==
